@@ -49,7 +49,7 @@ def model_specs(draw, tier):
     nterms = draw(st.integers(1, 4))
     terms = []
     for _ in range(nterms):
-        kind = draw(st.sampled_from(['onsite', 'coupling', 'coupling', 'multi', 'exp', 'local']))
+        kind = draw(st.sampled_from(['onsite', 'coupling', 'coupling', 'multi', 'exp', 'local', 'direct']))
         terms.append({'kind': kind, 'a': [draw(st.integers(0, 10 ** 4)) for _ in range(6)],
                       'strength': draw(st.sampled_from(['int', 'float', 'complex', 'array', 'npint'])), 'plus_hc': draw(st.booleans())})
     return {'lat': lat, 'bc': bc, 'order': order, 'perm_seed': draw(st.integers(0, 999)), 'cfg': cfg, 'terms': terms,
@@ -261,6 +261,36 @@ def run_model(spec):
                     raise Violation('add_local_term-raises', 'strength %r (%s): %s' % (sv, sk, str(e)[:80]), strength=sk, **tags)
                 add_ref(M.jw_term(sites, [(names[k], idx[k]) for k in order]), sv)
                 if len(idx) > 1 and (max(idx) - min(idx) != 1 or len(idx) > 2):
+                    all_nn = False
+            elif kind == 'direct':
+                # the low-level wrappers add_onsite_term / add_coupling_term / add_multi_coupling_term (MPS indices, explicit operator strings)
+                which = t['a'][1] % 3
+                sv = strength_value(sk if sk != 'array' else 'complex', rng)
+                names_d = neutral
+                hneutral = [n_ for n_ in neutral if hermitian_name(site, n_)]
+                if spec['explicit_plus_hc'] and t['a'][0] % 2 and hneutral:
+                    # with explicit_plus_hc a term added without plus_hc is halved (H = MPO + h.c.): hermitian term, real strength
+                    plus_hc = False
+                    names_d = hneutral
+                    sv = strength_value('float', rng)
+                neutral_d = names_d
+                if which == 0 or N < 2:
+                    i = int(rng.integers(0, N))
+                    name = neutral_d[t['a'][2] % len(neutral_d)]
+                    model.add_onsite_term(sv, i, name, plus_hc=plus_hc)
+                    add_ref(M.dense_op(sites, {i: M.op_matrix(sites[i], name)}), sv)
+                elif which == 1 or N < 3:
+                    i, j = sorted(rng.permutation(N)[:2].tolist())
+                    n1, n2 = neutral_d[t['a'][2] % len(neutral_d)], neutral_d[t['a'][3] % len(neutral_d)]
+                    model.add_coupling_term(sv, i, j, n1, n2, 'Id', plus_hc=plus_hc)
+                    add_ref(M.dense_op(sites, {i: M.op_matrix(sites[i], n1), j: M.op_matrix(sites[j], n2)}), sv)
+                    if j - i != 1:
+                        all_nn = False
+                else:
+                    ijk = sorted(rng.permutation(N)[:3].tolist())
+                    nms = [neutral_d[(t['a'][2] >> k) % len(neutral_d)] for k in range(3)]
+                    model.add_multi_coupling_term(sv, ijk, nms, ['Id', 'Id'], plus_hc=plus_hc)
+                    add_ref(M.dense_op(sites, {i_: M.op_matrix(sites[i_], nm) for i_, nm in zip(ijk, nms)}), sv)
                     all_nn = False
             kinds.add(kind)
         if not kinds or np.linalg.norm(H0) < 1e-12:
